@@ -235,11 +235,11 @@ func (c *Ctx) Prelude(asserts []string) string {
 		need[n] = true
 		work = append(work, c.deps[n]...)
 	}
-	if c.index == nil || len(c.index) != len(c.order) {
+	if c.index == nil {
 		c.index = make(map[string]int, len(c.order))
-		for i, n := range c.order {
-			c.index[n] = i
-		}
+	}
+	for i := len(c.index); i < len(c.order); i++ {
+		c.index[c.order[i]] = i
 	}
 	names := make([]string, 0, len(need))
 	for n := range need {
